@@ -30,7 +30,7 @@ from feems.types_for_feems import TypeComponent, TypePower, Power_kW, SwbId, Emi
 CURVE_THEOREMS = {
     "C06": ["efficiency_curve_within", "efficiency_curve_through_points", "inverse_exact_at_samples", "inverse_monotone",
             "interp_inverse_modelled", "table_strict", "knotOut_rising"],
-    "C07": ["curve_through_points", "curve_single", "curve_order_free", "curve_between_points", "curve_monotone", "curve_two_points_linear"],
+    "C07": ["curve_through_points", "curve_single", "curve_order_free", "fuel_within_points", "curve_between_points", "curve_monotone", "curve_two_points_linear"],
     "C09": ["emission_curve_through_points", "emission_curve_single", "emission_curve_order_free", "emission_curve_nonneg"],
 }
 PROOF_MODULES = ["FeemsProofs.CurveProps"]
